@@ -223,12 +223,21 @@ def check_property(pid, tier="quick", seed=0, jobs=None):
         if n_real == 0 and not r.get("crash") and not r.get("errors"):
             crashes.append((r["task"], "vacuity guard: task generated zero obligations"))
     # canaries must fail (an unsatisfiable precondition would 'prove' them)
+    # ... unless the same task also has a FAILED obligation: contradictory assumptions would have discharged
+    # everything, so there the canary's statement has simply become true on this tree (e.g. "this target is never
+    # updated" after a change that drops the update) - reported with the violation instead of masking it as a checker error
     bad_canaries = [c for c in canaries if c["verdict"] == "discharged"]
+    tasks_with_failures = {o["task"] for o in failed}
+    canary_notes = []
     for c in bad_canaries:
+        if c["task"] in tasks_with_failures:
+            canary_notes.append(f"  note: canary {c['name']} holds on this tree (task also has failed obligations: not a vacuity)")
+            continue
         crashes.append((c["task"], f"vacuity guard: canary {c['name']} was discharged (contradictory assumptions?)"))
 
     # ---- known findings / violations
-    lines = []
+    lines = list(canary_notes)
+    reproduced_natively = []  # violations whose failing input was replayed on the real code
     violations = []
     known_hit = []
     replay_dir = os.path.join(VERIF, "replay", pid)
@@ -260,6 +269,7 @@ def check_property(pid, tier="quick", seed=0, jobs=None):
         lines.append(f"VIOLATION property={pid} replay={rel}{suffix}")
         lines.append(f"  failed obligation: {o['name']} [{o['backend']}] goal: {(o.get('detail') or '')[:200]}")
         if rep and rep.get("reproduced"):
+            reproduced_natively.append(o["name"])
             lines.append(f"  replayed on the real code: {str(rep.get('witness'))[:300]}")
 
     known_names = {o["name"] for o in known_hit}
@@ -283,6 +293,7 @@ def check_property(pid, tier="quick", seed=0, jobs=None):
             with open(rp, "w") as f:
                 json.dump(payload, f, indent=1, default=str)
             violations.append(o)
+            reproduced_natively.append(o["name"])
             lines.append(f"VIOLATION property={pid} replay={os.path.relpath(rp, VERIF)}")
             lines.append(f"  obligation left undecided by the solvers, violated on the real code: {o['name']}")
             lines.append(f"  replayed on the real code: {str(rep.get('witness'))[:300]}")
@@ -311,6 +322,7 @@ def check_property(pid, tier="quick", seed=0, jobs=None):
             with open(rp, "w") as f:
                 json.dump(payload, f, indent=1, default=str)
             violations.append(dict(name=name, task=t))
+            reproduced_natively.append(name)
             lines.append(f"VIOLATION property={pid} replay={os.path.relpath(rp, VERIF)}")
             lines.append(f"  task {t} is outside the verifier's reach on this tree ({kind}: {msg[:160]}); its clauses are violated on the real code")
             lines.append(f"  replayed on the real code: {str(rep.get('witness'))[:300]}")
@@ -363,7 +375,9 @@ def check_property(pid, tier="quick", seed=0, jobs=None):
     if crashes:
         for t, c in crashes:
             print(f"CHECKER-ERROR task={t}: {c[:1500]}")
-        return 3
+        # a checker error in one task does not mask a violation whose failing input was replayed on the real code
+        # (ground truth independent of the checker); without such an input the run as a whole is a checker error
+        return 1 if reproduced_natively else 3
     if violations:
         return 1
     if undecided or errors:
